@@ -13,6 +13,8 @@ bitmap flips one bit with open/closed rejection, and deletion requires an all-ze
 opening handlers resolve one-sided bounds and open with the resolved range; the range
 validator itself (both implementations) rejects each unusable bound, lower >= upper and,
 on full-range-only pools, each bound that is not the full-range bound.
+Also decided: the checkpoint resets of reset_position_range go into the position itself (not a copy); no update of position / bundle state is
+made to a local value and dropped.
 Not decided: the snapping arithmetic of one-sided bounds; sequences of operations."""
 from analysis import cfg, atoms as A, preach, writes, program, pino, accounts as ACC
 from analysis.ir import callee_path, AnchorMissing
